@@ -58,10 +58,11 @@ Prefix(x, i) == x.hi \o x.tails[i]
 (* VerifySolution: the order of the checks in pow.go / hashcash.Verify.  A case fixes the six abstract conditions;
    `zeros` is "the stamp hash has at least `required difficulty` leading zero bits" (the code counts against the
    difficulty written in the stamp, which is the same number once the difficulty check has passed). *)
-Offsets == {0 - 2*Expires - Delta, 0 - 2*Expires + Delta, 0 - Delta, Delta, Expires, 2*Expires - Delta, 2*Expires + Delta}
+NoExpiry == 0 - 100000000                   \* the stamp carries no expiry at all (empty field): it has no "not expired", no window
+Offsets == {0 - 2*Expires - Delta, 0 - 2*Expires + Delta, 0 - Delta, Delta, Expires, 2*Expires - Delta, 2*Expires + Delta, NoExpiry}
 Abs(x) == IF x < 0 THEN 0 - x ELSE x
-Fresh(off)  == off > 0                      \* has not expired (expiry lies `off` seconds after the check)
-Window(off) == Abs(off) <= 2 * Expires      \* expires within the allowed window (pow.go: |now - exp| <= 2 * Expires)
+Fresh(off)  == off > 0 /\ off # NoExpiry     \* has not expired (expiry lies `off` seconds after the check)
+Window(off) == Abs(off) <= 2 * Expires /\ off # NoExpiry      \* expires within the allowed window (pow.go: |now - exp| <= 2 * Expires; a zero expiry is refused)
 
 AcceptCases == [fam : {"accept"}, sig : BOOLEAN, diff : BOOLEAN, subj : BOOLEAN, zeros : BOOLEAN, off : Offsets, d : {Difficulty}, expires : {Expires}]
 
